@@ -7,7 +7,11 @@ RULE = ("UPDATE ASTs drawn at random (conventional withdrawn/NLRI, MP_REACH/MP_U
         "extended-length and odd flag bits, 2- and 4-octet AS_PATH, End-of-RIB forms), turned into bytes by the PROVED encoder "
         "(extracted), then decoded by the extracted independent decoder and by rotonda (from_octets + explode_*); plus "
         "non-canonical-but-legal PDUs and a malformed stream (bit flips, byte edits, length edits, truncation, extension). "
-        "A case (1-3 PDUs) is non-trivial when at least one PDU yields at least one route; distinct = distinct case text")
+        "A case (1-3 PDUs) is non-trivial when at least one PDU yields at least one route; distinct = distinct case text. "
+        "Engine c04json: UPDATEs with the four community attributes (COMMUNITIES, EXTENDED, IPv6 EXTENDED, LARGE) over-weighted, in any "
+        "attribute order, repeated / empty / of a length that is no multiple of the member size, announcing 1-3 prefixes; the JSON serde "
+        "makes of each announced route's attribute map is reduced to (element kinds in order, sorted community octets) and compared with "
+        "BgpModel.json_shape; non-trivial there = the community list is not empty")
 TRUSTED_BASE = [
     "Coq 8.16.1 kernel (coqc; coqchk in thorough); no native_compute",
     "extraction with ExtrOcamlBasic only; OCaml driver oracle/{conv,c04_util,eng_c04,eng_c04enc,oracle}.ml (hex/text conversion, FNV-1a digest of the attribute blob)",
@@ -17,7 +21,7 @@ TRUSTED_BASE = [
 ]
 ASSUMPTIONS = [
     "the harness hands the explode path exactly one framed message (framing by BGP / BMP / MRT record length is C06's business); the three ingress units all call explode_announcements then explode_withdrawals and drop the whole UPDATE on an error of either - the harness composes them the same way",
-    "the attribute map of a route is observed as the raw attribute section it stores (length + FNV-1a 32 digest), the same bytes every downstream consumer (RIB, JSON serialiser, roto filters) iterates over",
+    "the attribute map of a route is observed as the raw attribute section it stores (length + FNV-1a 32 digest) and, in engine c04json, as the shape of its serde_json rendering (which elements, which communities); values of attributes other than the community octets are not compared",
     "ADD-PATH is not negotiated (SessionConfig::modern()/legacy() as used by all three ingress units)",
     "on malformed input acceptance and events must be equal too, with one tolerance: when an MP attribute of a family routecore parses but rotonda ignores (labelled unicast, VPN, flowspec, route target, VPLS, EVPN) has a non-empty NLRI field, the implementation may refuse what the decoder (which keeps that field opaque) accepts",
 ]
@@ -349,7 +353,7 @@ def corpus():
 def known_signature(k, engine, case, model, spec, impl):
     """A failing case belongs to a known finding iff, on every PDU where the implementation differs from the
     RFC decoder, it behaves exactly like the decoder's Code mode, in the direction of that finding."""
-    if engine not in ("c04", "c04bmp", "c04bgp") or k.get("engine") != "c04":
+    if engine not in ("c04", "c04bmp", "c04bgp", "c04json") or k.get("engine") != "c04":
         return False
     if k["signature"] == "labelled-nlri-panic":
         # the whole case line is lost when the implementation panics; the decoder must have flagged a PDU that
@@ -383,7 +387,144 @@ def gen_bmp(rng, tier):
         yield c
 
 
+# ---------------------------------------------------------------- the rendered form (engine c04json)
+COMM_SIZE = {8: 4, 16: 8, 25: 20, 32: 12}
+
+
+def gen_json_attrs(rng, four):
+    """non-MP attributes for the JSON stream: the four community attributes over-weighted, in any order, now and then
+    repeated, empty, or of a length that is no multiple of the member size; a few other attributes around them"""
+    rb = lambda n: [rng.below(256) for _ in range(n)]
+    pool8 = [[0xfd, 0xe8, 0, 1], [0xfd, 0xe8, 0, 2], [0xff, 0xff, 0xff, 0x01], [0xff, 0xff, 0xff, 0x02], [0, 0, 0, 5], [0xff, 0xff, 0, 9]]
+
+    def comm(ty):
+        k = COMM_SIZE[ty]
+        n = rng.weighted([(0, 4), (1, 40), (2, 30), (3, 16), (6, 10)])
+        v = []
+        for _ in range(n):
+            if ty == 8 and rng.chance(60):
+                v += rng.choice(pool8)
+            elif ty == 16 and rng.chance(50):
+                v += [rng.choice([0, 1, 2, 0x40, 0x41, 3, 6]), rng.choice([2, 3, 4, 0x0b])] + rb(6)
+            else:
+                v += rb(k)
+        if rng.chance(6):
+            v = v + rb(rng.range(1, k - 1)) if rng.chance(50) or not v else v[:-rng.range(1, k - 1)]
+        return (0xC0, ty, v)
+
+    others = [
+        lambda: (0x40, 1, [rng.below(3)]),
+        lambda: (0x40, 2, as_path(rng, four)),
+        lambda: (0x40, 3, rb(4)),
+        lambda: (0x80, 4, rb(4)),
+        lambda: (0x40, 5, rb(4)),
+        lambda: (0x40, 6, []),
+        lambda: (0xC0, 7, rb(8 if four else 6)),
+        lambda: (0x80, 9, rb(4)),
+        lambda: (0x80, 10, rb(4 * rng.range(1, 3))),
+        lambda: (0xC0, 35, rb(4)),
+        lambda: (0xC0, rng.range(40, 120), rb(rng.range(0, 9))),
+        lambda: (0x40, 1, rb(2)),                      # ORIGIN of 2 octets: rendered as `invalid`
+        lambda: (0x80, 4, rb(3)),
+    ]
+    picked, seen = [], set()
+    for _ in range(rng.range(1, 7)):
+        if rng.chance(62):
+            fl, ty, v = comm(rng.choice([8, 8, 16, 32, 32, 25, 16]))
+        else:
+            fl, ty, v = rng.choice(others)()
+        if ty in seen and not rng.chance(15):
+            continue
+        seen.add(ty)
+        if len(v) > 255 or rng.chance(15):
+            fl |= 0x10
+        if rng.chance(8):
+            fl |= 0x20
+        picked.append("G %d %d %s" % (fl, ty, hexs(v)))
+    return picked
+
+
+def gen_json_ast(rng, four):
+    attrs = gen_json_attrs(rng, four)
+    nlri, wd, mps = [], [], []
+    shape = rng.weighted([("conv", 45), ("mp", 35), ("mix", 15), ("none", 5)])
+    if shape in ("conv", "mix"):
+        nlri = gen_pfxs(rng, 32, lo=1, hi=3)
+    if shape in ("mp", "mix"):
+        f, maxlen = rng.choice(FAMS)
+        ps = gen_pfxs(rng, maxlen, lo=1, hi=3)
+        nhl = 4 if f in (0, 1) else 16
+        mps.append("R %d %s 0 P %d %d %s" % (0x80 | (0x10 if rng.chance(30) else 0), hexs([rng.below(256) for _ in range(nhl)]),
+                                             f, len(ps), " ".join(show_pfx(p) for p in ps)))
+    if rng.chance(25):
+        mps.append(gen_unreach(rng))
+    if rng.chance(20):
+        wd = gen_pfxs(rng, 32, hi=2)
+    for m in mps:
+        attrs.insert(rng.below(len(attrs) + 1), m)
+    return "U %d %s %d %s %d %s" % (len(wd), " ".join(show_pfx(p) for p in wd), len(attrs), " ".join(attrs),
+                                    len(nlri), " ".join(show_pfx(p) for p in nlri))
+
+
+def gen_json(rng, tier):
+    n = 1200 if tier == "quick" else 20000
+    plan = [rng.chance(65) for _ in range(n)]      # four-octet AS?
+    asts = [gen_json_ast(rng.fork("jast%d" % i), four) for i, four in enumerate(plan)]
+    enc = V.run_lines(V.ORACLE, "c04enc", asts, shards=4)
+    ops = []
+    for i, (four, line) in enumerate(zip(plan, enc)):
+        parts = line.split()
+        if len(parts) != 3 or line.startswith("MODEL-ERROR") or parts[0] != "1":
+            raise V.CheckBroken(f"c04enc failed on / rejected the AST {asts[i]!r}: {line}")
+        ops.append("s%s %s json" % ("m" if four else "l", parts[2]))
+    i = 0
+    while i < len(ops):
+        k = rng.weighted([(1, 75), (2, 25)])
+        yield ";".join(ops[i:i + k])
+        i += k
+
+
+def nontrivial_json(case, out):
+    return any(" c:" in s and not s.endswith("c:-") for s in segments(out))
+
+
+def classify_json(case, out):
+    ks = set()
+    for seg in segments(out):
+        toks = seg.split()
+        if toks[:1] == ["ERR"]:
+            ks.add("decoder-rejects")
+            continue
+        if toks[1:2] == ["-"]:
+            ks.add("nothing-announced")
+            continue
+        kinds = toks[1][2:].split(",") if toks[1] != "k:-" else []
+        comms = toks[2][2:].split(",") if toks[2] != "c:-" else []
+        ks.add("communities:%s" % ("0" if not comms else "1" if len(comms) == 1 else "2-5" if len(comms) <= 5 else ">5"))
+        for c in comms:
+            ks.add("kind:" + {"s": "standard", "e": "extended", "l": "large", "x": "ipv6-extended"}.get(c[:1], "?"))
+        if len({c[:1] for c in comms}) > 1:
+            ks.add("several-community-attributes")
+        if any(k in ("8", "16", "25", "32") for k in kinds):
+            ks.add("community-attribute-of-odd-length-shown-as-element")
+        if len(set(comms)) < len(comms):
+            ks.add("repeated-community")
+    return sorted(ks)
+
+
+def corpus_json():
+    mk = "ff" * 16
+    return [
+        # LARGE_COMMUNITY, EXTENDED COMMUNITIES, ORIGIN, NEXT_HOP, then COMMUNITIES (not in type-code order), 198.51.100.0/24
+        "sm " + mk + "004b0200000030c0200c0000fde80000000100000002c010080002fde800000064400101004003040a000001c00808fde80001fde8000218c63364 json",
+        # IPv6 address specific extended community before COMMUNITIES, an MP_UNREACH_NLRI in between, a 3-octet COMMUNITIES
+        # attribute (an element of its own), an empty EXTENDED COMMUNITIES attribute
+        "sm " + mk + "00530200000038c019140002000100000000000000000000000000000001800f03000201c00804ffffff01c00803010203400101004003040a000001c0100018c63364 json",
+    ]
+
+
 ENGINES = [{"name": "c04", "gen": gen, "corpus": corpus, "nontrivial": nontrivial, "classify": classify, "shards": 4},
+           {"name": "c04json", "gen": gen_json, "corpus": corpus_json, "nontrivial": nontrivial_json, "classify": classify_json, "shards": 4},
            {"name": "c04bmp", "gen": gen_bmp, "corpus": corpus, "nontrivial": nontrivial, "classify": classify, "shards": 4},
            {"name": "c04bgp", "gen": gen_bmp, "corpus": corpus, "nontrivial": nontrivial, "classify": classify, "shards": 4}]
 
